@@ -234,7 +234,7 @@ pub fn run_positions(ctx: &mut Ctx) {
 
 pub fn main(mode: Mode) -> i32 {
     match mode {
-        Mode::Worker(_) => 2,
+        Mode::Worker(_) | Mode::Minimize(..) => 2,
         Mode::Replay(_, doc) => {
             let mut ctx = Ctx::new("C20", "quick");
             match doc["sub"].as_str() {
